@@ -452,3 +452,7 @@ macro_rules! table_get_or_insert {
 
 table_get_or_insert!(tbl_q_get_or_insert_ab, RAB, byte = 3, entity = (A, B));
 table_get_or_insert!(tbl_t_get_or_insert_b, RAB, byte = 2, entity = (B));
+
+// Measured: `Archetypes::eq` between a table of one archetype and a table of two (one row) does not
+// fit in 20 GB (2.9 M program steps).  Table-level equality stays outside the claim (C16 is claimed at
+// the level of `Archetype::component_eq`).
